@@ -159,7 +159,7 @@ def seq_fn(case, wit):
 
 def shared_cases(tier):
     for tick, exact in [(t, True) for t in EXACT_TICKS] + [(t, False) for t in DEC_TICKS]:
-        for direction in ("ascending", "descending", "sides_swapped", "rewritten_before_acceptance"):
+        for direction in ("ascending", "descending", "sides_swapped", "rewritten_before_acceptance", "running_with_quotes"):
             yield (tick, exact, direction)
         # the market is set up with another tick size; its public tick_size attribute is then assigned the new one
         # (a tick-size reform by an event, a subclass computing its tick after setup) before the domain is submitted
@@ -191,6 +191,13 @@ def shared_fn(case, wit):
         m.setup({"tickSize": tick, "marketPrice": 100.0})
         m._update_time(100.0)
         m._is_running = False
+    if direction == "running_with_quotes":
+        # the market is running and quoted on both sides around the middle of the domain, so that half of the submissions
+        # cross the opposite best quote (no matching round is requested here: acceptance alone is judged)
+        m._is_running = True
+        mid = ps[len(ps) // 2]
+        m._add_order(Order(0, 0, True, LIMIT_ORDER, 10 ** 6, price=mid))
+        m._add_order(Order(0, 0, False, LIMIT_ORDER, 10 ** 6, price=mid + 2 * tick))
     for i, p in enumerate(ps):
         for is_buy in ((True, False) if direction != "sides_swapped" else (False, True)):
             if direction == "rewritten_before_acceptance":
